@@ -158,6 +158,8 @@ class Impl:
         self.sc = sc
         self.ex = Executor(c["npools"], c["cpus"], num(c["ram"]), self.tps,
                            allow_memory_overcommit=c["over"], multi_operator_containers=c["multi"])
+        # a second executor with the opposite settings, created afterwards and kept alive: what it is configured with is its own business
+        self.decoy = Executor(1, 1, 1, self.tps, allow_memory_overcommit=not c["over"], multi_operator_containers=not c["multi"])
         self.pipes = []
         self.gid = {}
         self.ops_by_gid = []
@@ -201,24 +203,32 @@ class Impl:
             self.rcids[self.cids[cid]] = cid
         self.next_num = len(CREATED)
 
+    def cid_of(self, container_id):
+        """number of a container of this executor; a container that some *other* executor created (it has no business here) gets a number no container
+        of the model can have, so that it shows up as a difference instead of crashing the harness"""
+        if container_id in self.cids:
+            return self.cids[container_id]
+        self.foreign = getattr(self, "foreign", {})
+        return self.foreign.setdefault(container_id, 900000 + len(self.foreign))
+
     def world(self):
         pools = []
         for pool in self.ex.pools:
-            A = [[self.cids[c.container_id], c.assignment.cpu, self.qv(c.assignment.ram), self.qv(c._current_memory),
+            A = [[self.cid_of(c.container_id), c.assignment.cpu, self.qv(c.assignment.ram), self.qv(c._current_memory),
                   int(c._can_suspend), c._current_op_idx, c._ticks_elapsed, [self.gid[id(o)] for o in c.operators]]
                  for c in pool.active_containers]
-            S = [[self.cids[c.container_id], c.assignment.cpu, self.qv(c.assignment.ram), c._suspend_ticks_left, c._current_op_idx,
+            S = [[self.cid_of(c.container_id), c.assignment.cpu, self.qv(c.assignment.ram), c._suspend_ticks_left, c._current_op_idx,
                   [self.gid[id(o)] for o in c.operators]] for c in pool.suspending_containers]
-            D = [self.cids[c.container_id] for c in pool.suspended_containers]
+            D = [self.cid_of(c.container_id) for c in pool.suspended_containers]
             pools.append({"ac": pool.avail_cpu_pool, "ar": self.qv(pool.avail_ram_pool), "cons": self.qv(pool.consumed_ram_gb),
                           "capc": pool.max_cpu_pool, "capr": self.qv(pool.max_ram_pool), "A": A, "S": S, "D": D,
                           "done": pool.num_completed,
-                          "K": {"snap": [[self.cids[c], self.qv(m), self.qv(r), int(d)] for c, m, r, d in getattr(pool, "_verif_snap", [])],
-                                "victims": [self.cids[c] for c in getattr(pool, "_verif_victims", [])]}})
+                          "K": {"snap": [[self.cid_of(c), self.qv(m), self.qv(r), int(d)] for c, m, r, d in getattr(pool, "_verif_snap", [])],
+                                "victims": [self.cid_of(c) for c in getattr(pool, "_verif_victims", [])]}})
         return {"st": self.states(), "cnt": self.counts(), "pools": pools}
 
     def results(self, res):
-        return [[self.cids[x.container_id], int(not x.failed()), x.pool_id, x.cpu, self.qv(x.ram), x.priority.value,
+        return [[self.cid_of(x.container_id), int(not x.failed()), x.pool_id, x.cpu, self.qv(x.ram), x.priority.value,
                  [self.gid[id(o)] for o in x.ops]] for x in res]
 
     def step(self, st):
@@ -229,7 +239,9 @@ class Impl:
             ops = [self.pipes[p][1][o] for p, o in refs]
             pl = self.pipes[refs[0][0]][0] if refs else self.pipes[0][0]
             try:
-                a = Assignment(ops, cpu, num(ram), self.Priority(prio), pool, pl.pipeline_id)
+                fl = self.sc.get("flags") or {}      # flags the executor's admission and accounting must ignore
+                a = Assignment(ops, cpu, num(ram), self.Priority(prio), pool, pl.pipeline_id,
+                               is_resume=bool(fl.get("is_resume")), force_run=bool(fl.get("force_run")))
                 self.pend_a.append(a)
                 return {"ok": True, "st": self.states(), "cnt": self.counts()}
             except BaseException as e:
